@@ -6,5 +6,5 @@ cd "$(dirname "$(readlink -f "$0")")"
 export CARGO_NET_OFFLINE=true
 for t in cargo rsync python3 cbmc goto-instrument z3 cvc5; do command -v $t >/dev/null || { echo "missing tool: $t"; exit 1; }; done
 cargo kani --version
-python3 lib/gen_manifest.py >/dev/null
+true
 echo "setup ok"
